@@ -343,6 +343,8 @@ def blanks_rule(repo, res, rule="BLANKS"):
                 c = n["path"].split("::")[-1]
                 if c == f.name or c not in nomlike:
                     continue
+                if c in ("preceded", "terminated", "delimited", "pair", "tuple", "recognize"):
+                    continue  # pure sequencing: `preceded(a, b)` accepts what `a` then `b` written as two steps accept
                 if c in by_name and c not in named and c not in seen:
                     out |= flat(by_name[c], seen + (c,))
                 else:
